@@ -1,15 +1,15 @@
 SPECIFICATION Spec
 CONSTANTS
-  Src = {s1}
+  Src = {s1, s2}
   Tgt = {t1, t2}
-  MaxId = 3
+  MaxId = 1
   MaxBatch = 2
   MaxWm = 0
   ChanCap = 2
   AckCap = 1
   MaxFaults = 0
   SrcFaults = FALSE
-  LateTgt = {t2}
+  LateTgt = {}
   SeedFix = TRUE
 SYMMETRY Sym
 INVARIANTS NoEarlyAck WellFormed NoDup SourceOrder AllDelivered AckMonotone AckBounded
